@@ -157,6 +157,10 @@ def replay(cs, scenario, graph, rec, modes=DEFAULT_MODES, foreign=True, max_stat
         kept[s] = rec.envs[eids[0]].current_state
         for e in eids[:2]:
             rec.goal(e, None)
+        if extras and si % 5 == 2:
+            # documented as leaving the environment alone: asked for in the middle of an episode, before the
+            # out-edges of this state are executed
+            rec.init_states(eids[si % len(eids)])
         if extras:
             for e in flat_envs[:1]:
                 rec.mask(e)
